@@ -307,6 +307,21 @@ func (e *Exec) streamRun(fr *Frame, st *BState, x *ssa.Call) SV {
 	for pre := range keys {
 		st.hepoch[pre] = epochCounter
 	}
+	// variables of the enclosing function that the callbacks assign
+	cbCells := map[*ssa.Alloc]bool{}
+	if pf != nil {
+		assignedCells(pf, map[*ssa.Function]bool{}, cbCells)
+	}
+	if mf != nil {
+		assignedCells(mf, map[*ssa.Function]bool{}, cbCells)
+	}
+	for a := range cbCells {
+		if _, ok := st.cells[a]; ok {
+			nv := e.freshSV(a.Type().(*types.Pointer).Elem(), "stream."+a.Comment, st.reach, false)
+			e.saneInput(st, a.Type().(*types.Pointer).Elem(), nv, tTrue)
+			st.cells[a] = nv
+		}
+	}
 	for _, g := range []string{"IN", "INM", "OUT", "OUTM"} {
 		sl := st.ghost[g].(*SliceV)
 		n := e.fresh("stream."+g+".len", SInt)
